@@ -4,17 +4,17 @@ import vp
 from checks import prop, REPLAYERS
 
 P_INV = ["AtMostOneHop", "HandlerRunsBounded", "LocalPreferred", "ForwardedNeverForwards",
-         "ServedOnlyByRealUpstream", "OutcomeWhenDone", "SettledServes"]
+         "ServedOnlyByRealUpstream", "DeregOnlyWhereHandled", "OutcomeWhenDone", "SettledServes"]
 C06_TRACE = ["AtMostOneHop", "HandlerRunsBounded", "LocalPreferred", "ForwardedNeverForwards",
-             "ServedOnlyByRealUpstream", "EntryRuns", "NoStepViolation"]
+             "ServedOnlyByRealUpstream", "DeregOnlyWhereHandled", "EntryRuns", "NoStepViolation"]
 C01_TRACE = ["NoStepViolation"]
-TRACE_CONSTS = {"Node": {"a", "b", "c", "d"}}
+TRACE_CONSTS = {"Node": {"a", "b", "c", "d"}, "MaxGone": 4}
 
 
-def model(chk, label, nodes, timeout=2400):
+def model(chk, label, nodes, timeout=2400, max_gone=0):
     with vp.Scratch("mc-" + label) as d:
         vp.copy_specs(d, ["Proxy"])
-        res = vp.run_tlc(d, "Proxy", vp.cfg_text("Spec", {"Node": set(nodes)}, P_INV, ["Terminates"], None),
+        res = vp.run_tlc(d, "Proxy", vp.cfg_text("Spec", {"Node": set(nodes), "MaxGone": max_gone}, P_INV, ["Terminates"], None),
                          timeout=timeout)
     chk.add_tlc(res, label)
     if res.error or res.violated or res.queue != 0:
@@ -26,15 +26,15 @@ def c06(chk):
     quick = chk.tier == "quick"
     chk.rule = ("(1) Proxy.tla: every placement of real upstreams x every assignment of beliefs per node (any "
                 "subset of the others, right or wrong) x which nodes are up x entry node x client-supplied forward "
-                "header, for 2..4 nodes; (2) the same configurations on a live cluster: real upstream listeners where "
-                "the placement says, beliefs injected into every node's routing table through the public "
+                "header x which nodes hold only an upstream that has sent go-away, for 2..4 nodes; (2) the same configurations on a live cluster: real upstream listeners where "
+                "the placement says (a go-away upstream on at most one other node), beliefs injected into every node's routing table through the public "
                 "cluster.State API, one HTTP and one TCP-route request per configuration; observed: status, which "
                 "node's upstream answered, proxy handler invocations per node (piko_proxy_requests_total deltas); "
                 "judged by TLC (TraceP.tla)")
     chk.assumptions = ["all nodes are up in the live runs (dead peers are covered by C18)",
                        "handler invocations are read from /metrics after the in-flight gauge returns to 0"]
-    model(chk, "C06-2nodes", ["a", "b"])
-    model(chk, "C06-3nodes", ["a", "b", "c"])
+    model(chk, "C06-2nodes", ["a", "b"], max_gone=2)
+    model(chk, "C06-3nodes", ["a", "b", "c"], max_gone=1 if quick else 3)
     if not quick:
         model(chk, "C06-4nodes", ["a", "b", "c", "d"], timeout=3000)
     v, st = engine.run(chk, "peng", {"mode": "c06", "n": 2}, "2-nodes", "TraceP", TRACE_CONSTS, C06_TRACE,
